@@ -219,4 +219,697 @@ theorem upcAdd_mid (e : Env) (he : WFEnv e) (U : SRef → Prop) (ref : SRef) (i 
             refine ⟨hnd, fun S => ?_⟩
             simp only [hmem, List.mem_append, List.mem_singleton, hP, or_false]
 
+theorem ppath_eq {e : Env} {r : SRef} {i : SInfo} (h : e.info r = some i) : ppath e r = i.parents := by
+  simp [ppath, h]
+
+theorem mem_ppath_self {e : Env} (he : WFEnv e) {r : SRef} {i : SInfo} (h : e.info r = some i) :
+    r ∈ ppath e r := by
+  rw [ppath_eq h]
+  exact List.mem_of_getLast? (he.last r i h)
+
+/-- `_update_parents_children(ref, parents)` turns the index for `U` into the index for `U ∪ {ref}` -/
+theorem upcAdd_index {e : Env} (he : WFEnv e) {U : SRef → Prop} {ref : SRef} {i : SInfo}
+    (hi : e.info ref = some i) {par chi : List (SRef × List SRef)} (h : IndexOK e U par chi) :
+    IndexOK e (fun S => U S ∨ S = ref) (upcAdd ref par chi [] i.parents).1 (upcAdd ref par chi [] i.parents).2 := by
+  have hm : IndexMid e U ref [] par chi :=
+    ⟨fun P => by simpa using h.dom P, h.domp, h.par_val, fun P cs hcs => by
+      obtain ⟨h1, h2⟩ := h.chi_val P cs hcs
+      exact ⟨h1, fun S => by simpa using h2 S⟩⟩
+  have := upcAdd_mid e he U ref i hi i.parents [] par chi (by simp) hm
+  have hpp := ppath_eq hi
+  have hself : ref ∈ i.parents := hpp ▸ mem_ppath_self he hi
+  refine ⟨fun P => ?_, this.domp, this.par_val, fun P cs hcs => ?_⟩
+  · rw [this.dom P]
+    constructor
+    · rintro (⟨S, hS, hx⟩ | hx)
+      · exact ⟨S, Or.inl hS, hx⟩
+      · exact ⟨ref, Or.inr rfl, hpp ▸ hx⟩
+    · rintro ⟨S, hS | rfl, hx⟩
+      · exact Or.inl ⟨S, hS, hx⟩
+      · exact Or.inr (hpp ▸ hx)
+  · obtain ⟨h1, h2⟩ := this.chi_val P cs hcs
+    refine ⟨h1, fun S => ?_⟩
+    rw [h2 S]
+    constructor
+    · rintro (⟨hS, hx, hne⟩ | ⟨rfl, hx, hne⟩)
+      · exact ⟨Or.inl hS, hx, hne⟩
+      · exact ⟨Or.inr rfl, hpp ▸ hx, fun h => hne h.symm⟩
+    · rintro ⟨hS | rfl, hx, hne⟩
+      · exact Or.inl ⟨hS, hx, hne⟩
+      · by_cases hU : U S
+        · exact Or.inl ⟨hU, hx, hne⟩
+        · exact Or.inr ⟨rfl, hpp ▸ hx, fun h => hne h.symm⟩
+
+/-! ### specification of the `/metador_container` subtree -/
+
+/-- `o` is `some n` when `P` holds and `none` otherwise -/
+def Holds (o : Option Node) (P : Prop) (n : Node) : Prop := (P → o = some n) ∧ (¬ P → o = none)
+
+theorem Holds.congr {o o' : Option Node} {P P' : Prop} {n : Node} (h : Holds o P n) (ho : o' = o)
+    (hp : P' ↔ P) : Holds o' P' n :=
+  ⟨fun hp' => ho ▸ h.1 (hp.mp hp'), fun hp' => ho ▸ h.2 (fun x => hp' (hp.mpr x))⟩
+
+theorem Holds.intro_some {o : Option Node} {P : Prop} {n : Node} (ho : o = some n) (hp : P) : Holds o P n :=
+  ⟨fun _ => ho, fun h => absurd hp h⟩
+
+inductive TocShape : Path → Prop
+  | root : TocShape []
+  | version : TocShape [.version]
+  | uuid : TocShape [.uuid]
+  | links : TocShape [.links]
+  | linkDir (r) : TocShape [.links, .ep r]
+  | link (r u) : TocShape [.links, .ep r, .link u]
+  | schemas : TocShape [.schemas]
+  | schemaDir (r) : TocShape [.schemas, .ep r]
+  | json (r) : TocShape [.schemas, .ep r, .jsonschema]
+  | compat (r) : TocShape [.schemas, .ep r, .compat]
+  | packages : TocShape [.packages]
+  | pkg (p) : TocShape [.packages, .pkg p]
+
+/-- the package `pk` provides a registered schema -/
+def RegP (e : Env) (U : SRef → Prop) (pk : PkgId) : Prop := ∃ r i, U r ∧ e.info r = some i ∧ i.pkg = pk
+
+/-- The `/metador_container` subtree of `t` is exactly what the linked objects `L`
+(`L p r u`: object at path `p`, schema `r`, uuid `u`) and the registered schemas `U` demand. -/
+structure TocRaw (e : Env) (L : Path → SRef → Nat → Prop) (U : SRef → Prop) (t : Tree) : Prop where
+  root : get? t tocP = some .grp
+  ver : get? t versionP = some (.ds (.text "1.0"))
+  uid : get? t uuidP = some (.ds (.text "uuid"))
+  links : Holds (get? t linksP) (∃ p r u, L p r u) .grp
+  ldir : ∀ r, Holds (get? t (linkDir r)) (∃ p u, L p r u) .grp
+  link_some : ∀ p r u, L p r u → get? t (linkPath r u) = some (.ds (.target p))
+  link_none : ∀ r u, (¬ ∃ p, L p r u) → get? t (linkPath r u) = none
+  schemas : Holds (get? t schemasP) (∃ r, U r) .grp
+  sdir : ∀ r, Holds (get? t (schemaDir r)) (U r) .grp
+  json : ∀ r, Holds (get? t (schemaDir r ++ [.jsonschema])) (U r) (.ds (.jsonschema r))
+  compat : ∀ r, Holds (get? t (schemaDir r ++ [.compat])) (U r) (.ds (.compat (ppath e r)))
+  packages : Holds (get? t packagesP) (∃ r, U r) .grp
+  pkg : ∀ pk, Holds (get? t (pkgPath pk)) (RegP e U pk) (.ds (.pkginfo pk (e.pkgPlugins pk)))
+  shape : ∀ rest, get? t (.toc :: rest) ≠ none → TocShape rest
+
+/-- The caches of `TOCSchemas` / `TOCPackages` are what the registered schemas `U` demand. -/
+structure SchemaCache (e : Env) (U : SRef → Prop) (c : Caches) : Prop where
+  schemas : ∀ r, r ∈ c.schemas ↔ U r
+  schemas_nodup : c.schemas.Nodup
+  index : IndexOK e U c.parents c.children
+  pkginfos : ∀ pk pl, alGet c.pkginfos pk = some pl ↔ (RegP e U pk ∧ pl = e.pkgPlugins pk)
+  providers : ∀ r ps, alGet c.providers r = some ps ↔ ∃ pk, ps = [pk] ∧ RegP e U pk ∧ r ∈ e.pkgPlugins pk
+  used_dom : ∀ pk, (alGet c.used pk).isSome ↔ RegP e U pk
+  used_val : ∀ pk rs, alGet c.used pk = some rs → rs.Nodup ∧
+    ∀ r, r ∈ rs ↔ (U r ∧ ∃ i, e.info r = some i ∧ i.pkg = pk)
+
+/-- The cache of `TOCLinks` is what the linked objects demand. -/
+def LinkCache (L : Path → SRef → Nat → Prop) (c : Caches) : Prop :=
+  ∀ u tp, alGet c.tocPath u = some tp ↔ ∃ p r, L p r u ∧ tp = linkPath r u
+
+/-- uuids identify linked objects -/
+def LUniq (L : Path → SRef → Nat → Prop) : Prop :=
+  ∀ p p' r r' u, L p r u → L p' r' u → p = p' ∧ r = r'
+
+/-- loop of `_add_providers` for a package `pk` that no registered package shares schemas with -/
+theorem addProviders_spec {e : Env} (he : WFEnv e) (Q : PkgId → Prop) (pk : PkgId) :
+    ∀ (l done : List SRef) (prov : List (SRef × List PkgId)),
+      (∀ r ∈ l, r ∈ e.pkgPlugins pk) →
+      (∀ r ps, alGet prov r = some ps ↔
+        ((∃ pk', ps = [pk'] ∧ Q pk' ∧ pk' ≠ pk ∧ r ∈ e.pkgPlugins pk') ∨ (ps = [pk] ∧ r ∈ done))) →
+      ∀ r ps, alGet (addProviders prov pk l) r = some ps ↔
+        ((∃ pk', ps = [pk'] ∧ Q pk' ∧ pk' ≠ pk ∧ r ∈ e.pkgPlugins pk') ∨ (ps = [pk] ∧ r ∈ done ++ l))
+  | [], done, prov, _, h => by simpa [addProviders] using h
+  | x :: l, done, prov, hl, h => by
+    simp only [addProviders]
+    have hx : x ∈ e.pkgPlugins pk := hl x (by simp)
+    have := addProviders_spec he Q pk l (done ++ [x])
+      (alSet prov x (setAdd ((alGet prov x).getD []) pk)) (fun r hr => hl r (by simp [hr])) (by
+        intro r ps
+        rw [alGet_alSet]
+        by_cases hr : r = x
+        · subst hr
+          simp only [if_true, Option.some.injEq, List.mem_append, List.mem_singleton, or_true, and_true]
+          have hval : setAdd ((alGet prov r).getD []) pk = [pk] := by
+            cases hg : alGet prov r with
+            | none => simp [setAdd]
+            | some ps0 =>
+              rcases (h r ps0).mp hg with ⟨pk', -, -, hne, hmem⟩ | ⟨rfl, -⟩
+              · exact absurd (he.disj _ _ _ hmem hx) hne
+              · simp [setAdd]
+          rw [hval]
+          constructor
+          · intro h'; exact Or.inr h'.symm
+          · rintro (⟨pk', -, -, hne, hmem⟩ | h')
+            · exact absurd (he.disj _ _ _ hmem hx) hne
+            · exact h'.symm
+        · simp only [hr, if_false, h r ps, List.mem_append, List.mem_singleton, or_false])
+    intro r ps
+    rw [this r ps]
+    simp [List.append_assoc]
+
+theorem isMid_head {p q : Path} (h : isMid [] p q = true) : q.head? = p.head? := by
+  obtain ⟨hq, ⟨b, rfl⟩, -⟩ := isMid_nil_iff.mp h
+  cases q with
+  | nil => exact absurd rfl hq
+  | cons x q => rfl
+
+/-- creating a node below `/metador_container` leaves everything else alone -/
+theorem rawCreate_frame {t t' : Tree} {p : Path} {n : Node} (h : rawCreate t p n = .ok t')
+    (q : Path) (hq : q.head? ≠ p.head?) : get? t' q = get? t q := by
+  by_cases hq0 : q = []
+  · subst hq0; simp
+  · rw [rawCreate_get? h q hq0]
+    have : q ≠ p := by rintro rfl; exact hq rfl
+    rw [if_neg this]
+    cases hg : get? t q with
+    | some x => rfl
+    | none =>
+      have : isMid [] p q = false := by
+        cases hm : isMid [] p q
+        · rfl
+        · exact absurd (isMid_head hm) hq
+      simp [this]
+
+theorem rawDel_frame {t t' : Tree} {p : Path} (h : rawDel t p = .ok t')
+    (q : Path) (hq : q.head? ≠ p.head?) : get? t' q = get? t q := by
+  by_cases hq0 : q = []
+  · subst hq0; simp
+  · rw [rawDel_get? h q hq0]
+    have : under p q = false := by
+      cases hu : under p q
+      · rfl
+      · exfalso
+        obtain ⟨hp, -, -⟩ := rawDel_inv h
+        obtain ⟨b, rfl⟩ := under_iff.mp hu
+        cases p with
+        | nil => exact hp rfl
+        | cons x p => exact hq rfl
+    simp [this]
+
+theorem TocRaw.congr {e : Env} {L L' : Path → SRef → Nat → Prop} {U U' : SRef → Prop} {t : Tree}
+    (h : TocRaw e L U t) (hL : ∀ p r u, L' p r u ↔ L p r u) (hU : ∀ r, U' r ↔ U r) : TocRaw e L' U' t := by
+  have e1 : L' = L := by funext p r u; exact propext (hL p r u)
+  have e2 : U' = U := by funext r; exact propext (hU r)
+  rw [e1, e2]; exact h
+
+theorem SchemaCache.congr {e : Env} {U U' : SRef → Prop} {c : Caches}
+    (h : SchemaCache e U c) (hU : ∀ r, U' r ↔ U r) : SchemaCache e U' c := by
+  have e2 : U' = U := by funext r; exact propext (hU r)
+  rw [e2]; exact h
+
+theorem Holds.not_ds {o : Option Node} {P : Prop} (h : Holds o P .grp) (v : Val) : o ≠ some (.ds v) := by
+  by_cases hp : P
+  · rw [h.1 hp]; exact fun h => by cases h
+  · rw [h.2 hp]; exact fun h => by cases h
+
+@[simp] theorem forEachM_nil {α} (f : α → M Unit) : forEachM [] f = pure () := rfl
+@[simp] theorem forEachM_cons {α} (a : α) (l : List α) (f : α → M Unit) :
+    forEachM (a :: l) f = (do f a; forEachM l f) := rfl
+
+/-- caches after `TOCSchemas._register(ref)` when the providing package is already registered -/
+def regCachesOld (c : Caches) (ref : SRef) (i : SInfo) (cur : List SRef) : Caches :=
+  { c with schemas := setAdd c.schemas ref,
+           parents := (upcAdd ref c.parents c.children [] i.parents).1,
+           children := (upcAdd ref c.parents c.children [] i.parents).2,
+           used := alSet c.used i.pkg (setAdd cur ref) }
+
+theorem schemaRegister_old (e : Env) (ref : SRef) (s : St) (i : SInfo) (t1 t2 : Tree) (cur : List SRef)
+    (hnew : ref ∉ s.c.schemas) (hi : e.info ref = some i)
+    (h1 : rawCreate s.raw (schemaDir ref ++ [.jsonschema]) (.ds (.jsonschema ref)) = .ok t1)
+    (h2 : rawCreate t1 (schemaDir ref ++ [.compat]) (.ds (.compat i.parents)) = .ok t2)
+    (hp : alGet s.c.providers ref = some [i.pkg])
+    (hu : alGet s.c.used i.pkg = some cur) :
+    schemaRegister e ref s = (.ok (), ⟨t2, regCachesOld s.c ref i cur, s.next⟩) := by
+  simp [schemaRegister, hnew, hi, run_liftRaw, h1, h2, hp, hu, regCachesOld]
+
+/-- caches after `TOCSchemas._register(ref)` when the providing package gets registered too -/
+def regCachesNew (e : Env) (c : Caches) (ref : SRef) (i : SInfo) : Caches :=
+  { c with schemas := setAdd c.schemas ref,
+           parents := (upcAdd ref c.parents c.children [] i.parents).1,
+           children := (upcAdd ref c.parents c.children [] i.parents).2,
+           pkginfos := alSet c.pkginfos i.pkg (e.pkgPlugins i.pkg),
+           providers := addProviders c.providers i.pkg (e.pkgPlugins i.pkg),
+           used := alSet (alSet c.used i.pkg []) i.pkg (setAdd [] ref) }
+
+theorem schemaRegister_new (e : Env) (ref : SRef) (s : St) (i : SInfo) (t1 t2 t3 : Tree)
+    (hnew : ref ∉ s.c.schemas) (hi : e.info ref = some i)
+    (h1 : rawCreate s.raw (schemaDir ref ++ [.jsonschema]) (.ds (.jsonschema ref)) = .ok t1)
+    (h2 : rawCreate t1 (schemaDir ref ++ [.compat]) (.ds (.compat i.parents)) = .ok t2)
+    (hp : alGet s.c.providers ref = none)
+    (h3 : rawCreate t2 (pkgPath i.pkg) (.ds (.pkginfo i.pkg (e.pkgPlugins i.pkg))) = .ok t3)
+    (hp' : alGet (addProviders s.c.providers i.pkg (e.pkgPlugins i.pkg)) ref = some [i.pkg]) :
+    schemaRegister e ref s = (.ok (), ⟨t3, regCachesNew e s.c ref i, s.next⟩) := by
+  simp [schemaRegister, hnew, hi, run_liftRaw, h1, h2, hp, h3, hp', pkgRegister, regCachesNew, alGet_alSet]
+
+theorem RegP_add {e : Env} {U : SRef → Prop} {ref : SRef} {i : SInfo} (hi : e.info ref = some i) (pk : PkgId) :
+    RegP e (fun r => U r ∨ r = ref) pk ↔ (RegP e U pk ∨ pk = i.pkg) := by
+  constructor
+  · rintro ⟨r, j, hU | rfl, hj, rfl⟩
+    · exact Or.inl ⟨r, j, hU, hj, rfl⟩
+    · rw [hi] at hj; cases hj; exact Or.inr rfl
+  · rintro (⟨r, j, hU, hj, rfl⟩ | rfl)
+    · exact ⟨r, j, Or.inl hU, hj, rfl⟩
+    · exact ⟨ref, i, Or.inr rfl, hi, rfl⟩
+
+/-- the two datasets written by `TOCSchemas._register` for a schema that was not in use -/
+theorem tocRaw_addSchema {e : Env} {L : Path → SRef → Nat → Prop} {U : SRef → Prop} {t t1 t2 : Tree}
+    {ref : SRef} {i : SInfo} (hi : e.info ref = some i) (hr : TocRaw e L U t) (hnew : ¬ U ref)
+    (h1 : rawCreate t (schemaDir ref ++ [.jsonschema]) (.ds (.jsonschema ref)) = .ok t1)
+    (h2 : rawCreate t1 (schemaDir ref ++ [.compat]) (.ds (.compat i.parents)) = .ok t2) :
+    (∀ q, q ≠ [] → get? t2 q =
+      if q = schemaDir ref ++ [.compat] then some (.ds (.compat i.parents))
+      else if q = schemaDir ref ++ [.jsonschema] then some (.ds (.jsonschema ref))
+      else match get? t q with
+        | some x => some x
+        | none => if q = schemasP ∨ q = schemaDir ref then some .grp else none) := by
+  intro q hq
+  rw [rawCreate_get? h2 q hq, rawCreate_get? h1 q hq]
+  have hroot := hr.root
+  by_cases hc : q = schemaDir ref ++ [.compat]
+  · simp [hc]
+  · by_cases hj : q = schemaDir ref ++ [.jsonschema]
+    · simp [hj, schemaDir]
+    · simp only [hc, hj, if_false]
+      cases hg : get? t q with
+      | some x => rfl
+      | none =>
+        have hq1 : q ≠ tocP := by rintro rfl; rw [hroot] at hg; cases hg
+        simp only [schemaDir, List.cons_append, List.nil_append, isMid, List.nil_append, Bool.or_false,
+          Bool.or_eq_true, beq_iff_eq, schemasP, tocP] at hq1 ⊢
+        by_cases ha : q = [.toc, .schemas]
+        · simp [ha]
+        · by_cases hb : q = [.toc, .schemas, .ep ref]
+          · simp [hb]
+          · simp [hq1, ha, hb]
+
+theorem match_id (o : Option Node) : (match o with | some x => some x | none => none) = o := by
+  cases o <;> rfl
+
+/-- lookups after `TOCSchemas._register` of a new schema; `b`: the package record was written too -/
+def RegGet (e : Env) (t t' : Tree) (ref : SRef) (i : SInfo) (b : Bool) : Prop :=
+  ∀ q, q ≠ [] → get? t' q =
+    if b = true ∧ q = pkgPath i.pkg then some (.ds (.pkginfo i.pkg (e.pkgPlugins i.pkg)))
+    else if q = schemaDir ref ++ [.compat] then some (.ds (.compat i.parents))
+    else if q = schemaDir ref ++ [.jsonschema] then some (.ds (.jsonschema ref))
+    else match get? t q with
+      | some x => some x
+      | none => if q = schemasP ∨ q = schemaDir ref ∨ (b = true ∧ q = packagesP) then some .grp else none
+
+theorem tocRaw_register {e : Env} {L : Path → SRef → Nat → Prop} {U : SRef → Prop} {t t' : Tree}
+    {ref : SRef} {i : SInfo} {b : Bool} (hi : e.info ref = some i) (hr : TocRaw e L U t) (hnew : ¬ U ref)
+    (hb : b = true ↔ ¬ RegP e U i.pkg) (hg : RegGet e t t' ref i b) :
+    TocRaw e L (fun r => U r ∨ r = ref) t' := by
+  have hU' : ∃ r, U r ∨ r = ref := ⟨ref, Or.inr rfl⟩
+  have hpp : ppath e ref = i.parents := ppath_eq hi
+  constructor
+  · rw [hg _ (by simp [tocP])]; simp [tocP, pkgPath, schemaDir, hr.root, schemasP, packagesP]
+    have := hr.root; simp only [tocP] at this; simp [this]
+  · rw [hg _ (by simp [versionP])]
+    have := hr.ver; simp only [versionP] at this
+    simp [versionP, pkgPath, schemaDir, this]
+  · rw [hg _ (by simp [uuidP])]
+    have := hr.uid; simp only [uuidP] at this
+    simp [uuidP, pkgPath, schemaDir, this]
+  · refine hr.links.congr ?_ Iff.rfl
+    rw [hg _ (by simp [linksP])]
+    simp only [linksP, pkgPath, schemaDir, schemasP, packagesP]
+    cases get? t [.toc, .links] <;> simp
+  · intro r
+    refine (hr.ldir r).congr ?_ Iff.rfl
+    rw [hg _ (by simp [linkDir])]
+    simp only [linkDir, pkgPath, schemaDir, schemasP, packagesP]
+    cases get? t [.toc, .links, .ep r] <;> simp
+  · intro p r u hL
+    rw [hg _ (by simp [linkPath])]
+    have := hr.link_some p r u hL
+    simp only [linkPath] at this
+    simp [linkPath, pkgPath, schemaDir, this]
+  · intro r u hL
+    rw [hg _ (by simp [linkPath])]
+    have := hr.link_none r u hL
+    simp only [linkPath] at this
+    simp [linkPath, pkgPath, schemaDir, this, schemasP, packagesP]
+  · refine Holds.intro_some ?_ hU'
+    rw [hg _ (by simp [schemasP])]
+    simp only [schemasP, pkgPath, schemaDir]
+    rcases h : get? t [.toc, .schemas] with _ | x
+    · simp
+    · have := hr.schemas.not_ds
+      simp only [schemasP, h] at this
+      cases x with
+      | grp => simp
+      | ds v => exact absurd rfl (this v)
+  · intro r
+    by_cases hrr : r = ref
+    · subst hrr
+      refine Holds.intro_some ?_ (Or.inr rfl)
+      rw [hg _ (by simp [schemaDir])]
+      have := (hr.sdir r).2 hnew
+      simp only [schemaDir] at this
+      simp [schemaDir, pkgPath, this]
+    · refine (hr.sdir r).congr ?_ (by simp [hrr])
+      rw [hg _ (by simp [schemaDir])]
+      simp only [schemaDir, pkgPath, schemasP, packagesP]
+      cases get? t [.toc, .schemas, .ep r] <;> simp [hrr]
+  · intro r
+    by_cases hrr : r = ref
+    · subst hrr
+      refine Holds.intro_some ?_ (Or.inr rfl)
+      rw [hg _ (by simp [schemaDir])]
+      simp [schemaDir, pkgPath]
+    · refine (hr.json r).congr ?_ (by simp [hrr])
+      rw [hg _ (by simp [schemaDir])]
+      simp only [schemaDir, pkgPath, schemasP, packagesP]
+      simp [hrr, match_id]
+  · intro r
+    by_cases hrr : r = ref
+    · subst hrr
+      refine Holds.intro_some ?_ (Or.inr rfl)
+      rw [hg _ (by simp [schemaDir])]
+      simp [schemaDir, pkgPath, hpp]
+    · refine (hr.compat r).congr ?_ (by simp [hrr])
+      rw [hg _ (by simp [schemaDir])]
+      simp only [schemaDir, pkgPath, schemasP, packagesP]
+      simp [hrr, match_id]
+  · refine Holds.intro_some ?_ hU'
+    rw [hg _ (by simp [packagesP])]
+    simp only [packagesP, pkgPath, schemaDir, schemasP]
+    by_cases hreg : RegP e U i.pkg
+    · obtain ⟨r, _, hUr, _, _⟩ := hreg
+      have := hr.packages.1 ⟨r, hUr⟩
+      simp only [packagesP] at this
+      simp [this]
+    · have hbt : b = true := hb.mpr hreg
+      rcases h : get? t [.toc, .packages] with _ | x
+      · simp [hbt]
+      · have := hr.packages.not_ds
+        simp only [packagesP, h] at this
+        cases x with
+        | grp => simp
+        | ds v => exact absurd rfl (this v)
+  · intro pk
+    by_cases hpk : pk = i.pkg
+    · subst hpk
+      refine Holds.intro_some ?_ ((RegP_add hi _).mpr (Or.inr rfl))
+      rw [hg _ (by simp [pkgPath])]
+      by_cases hreg : RegP e U i.pkg
+      · have := (hr.pkg i.pkg).1 hreg
+        simp only [pkgPath] at this
+        have hbf : b = false := by
+          cases hbb : b
+          · rfl
+          · exact absurd hreg (hb.mp hbb)
+        simp [pkgPath, schemaDir, this, hbf]
+      · simp [hb.mpr hreg]
+    · refine (hr.pkg pk).congr ?_ (by rw [RegP_add hi]; simp [hpk])
+      rw [hg _ (by simp [pkgPath])]
+      simp only [pkgPath, schemaDir, schemasP, packagesP]
+      have hpk' : ¬ i.pkg = pk := fun h => hpk h.symm
+      cases get? t [.toc, .packages, .pkg pk] <;> simp [hpk, hpk']
+  · intro rest hne
+    rw [hg _ (by simp)] at hne
+    by_cases h1 : b = true ∧ Key.toc :: rest = pkgPath i.pkg
+    · simp only [pkgPath, List.cons.injEq, true_and] at h1
+      rw [h1.2]; exact .pkg _
+    · by_cases h2 : Key.toc :: rest = schemaDir ref ++ [.compat]
+      · simp only [schemaDir, List.cons_append, List.nil_append, List.cons.injEq, true_and] at h2
+        rw [h2]; exact .compat _
+      · by_cases h3 : Key.toc :: rest = schemaDir ref ++ [.jsonschema]
+        · simp only [schemaDir, List.cons_append, List.nil_append, List.cons.injEq, true_and] at h3
+          rw [h3]; exact .json _
+        · simp only [h1, h2, h3, if_false] at hne
+          cases hq : get? t (Key.toc :: rest) with
+          | some x => exact hr.shape rest (by rw [hq]; simp)
+          | none =>
+            rw [hq] at hne
+            simp only at hne
+            split_ifs at hne with h4
+            · simp only [schemasP, schemaDir, packagesP, List.cons.injEq, true_and] at h4
+              rcases h4 with h4 | h4 | ⟨-, h4⟩ <;> rw [h4]
+              · exact .schemas
+              · exact .schemaDir _
+              · exact .packages
+            · exact absurd rfl hne
+
+theorem alGet_some_of_isSome {α β : Type} [DecidableEq α] {l : List (α × β)} {a : α}
+    (h : (alGet l a).isSome) : ∃ b, alGet l a = some b := by
+  cases hg : alGet l a with
+  | none => simp [hg] at h
+  | some b => exact ⟨b, rfl⟩
+
+theorem schemaCache_regOld {e : Env} (he : WFEnv e) {U : SRef → Prop} {c : Caches} {ref : SRef} {i : SInfo}
+    {cur : List SRef} (hi : e.info ref = some i) (hs : SchemaCache e U c) (hreg : RegP e U i.pkg)
+    (hu : alGet c.used i.pkg = some cur) :
+    SchemaCache e (fun r => U r ∨ r = ref) (regCachesOld c ref i cur) := by
+  have hregiff : ∀ pk, RegP e (fun r => U r ∨ r = ref) pk ↔ RegP e U pk := by
+    intro pk
+    rw [RegP_add hi]
+    constructor
+    · rintro (h | rfl)
+      · exact h
+      · exact hreg
+    · exact Or.inl
+  constructor
+  · intro r; simp [regCachesOld, mem_setAdd, hs.schemas r]
+  · exact nodup_setAdd hs.schemas_nodup _
+  · exact upcAdd_index he hi hs.index
+  · intro pk pl; simp only [regCachesOld, hregiff]; exact hs.pkginfos pk pl
+  · intro r ps; simp only [regCachesOld, hregiff]; exact hs.providers r ps
+  · intro pk
+    simp only [regCachesOld, hregiff, alGet_alSet]
+    by_cases hpk : pk = i.pkg
+    · subst hpk; simp [hreg]
+    · simp [hpk, hs.used_dom pk]
+  · intro pk rs hrs
+    simp only [regCachesOld, alGet_alSet] at hrs
+    by_cases hpk : pk = i.pkg
+    · subst hpk
+      simp only [if_true, Option.some.injEq] at hrs
+      subst hrs
+      obtain ⟨hnd, hmem⟩ := hs.used_val _ _ hu
+      refine ⟨nodup_setAdd hnd _, fun r => ?_⟩
+      rw [mem_setAdd, hmem r]
+      constructor
+      · rintro (⟨hU, hex⟩ | rfl)
+        · exact ⟨Or.inl hU, hex⟩
+        · exact ⟨Or.inr rfl, i, hi, rfl⟩
+      · rintro ⟨hU | rfl, hex⟩
+        · exact Or.inl ⟨hU, hex⟩
+        · exact Or.inr rfl
+    · simp only [hpk, if_false] at hrs
+      obtain ⟨hnd, hmem⟩ := hs.used_val _ _ hrs
+      refine ⟨hnd, fun r => ?_⟩
+      rw [hmem r]
+      constructor
+      · rintro ⟨hU, hex⟩; exact ⟨Or.inl hU, hex⟩
+      · rintro ⟨hU | rfl, j, hj, hjp⟩
+        · exact ⟨hU, j, hj, hjp⟩
+        · rw [hi] at hj; cases hj; exact absurd hjp.symm hpk
+
+theorem schemaCache_regNew {e : Env} (he : WFEnv e) {U : SRef → Prop} {c : Caches} {ref : SRef} {i : SInfo}
+    (hi : e.info ref = some i) (hs : SchemaCache e U c) (hreg : ¬ RegP e U i.pkg) :
+    SchemaCache e (fun r => U r ∨ r = ref) (regCachesNew e c ref i) := by
+  have hprov : ∀ r ps, alGet (addProviders c.providers i.pkg (e.pkgPlugins i.pkg)) r = some ps ↔
+      ∃ pk, ps = [pk] ∧ RegP e (fun r => U r ∨ r = ref) pk ∧ r ∈ e.pkgPlugins pk := by
+    intro r ps
+    have := addProviders_spec he (RegP e U) i.pkg (e.pkgPlugins i.pkg) [] c.providers (fun _ h => h) (by
+      intro r ps
+      rw [hs.providers r ps]
+      constructor
+      · rintro ⟨pk, rfl, hpk, hmem⟩
+        exact Or.inl ⟨pk, rfl, hpk, fun h => hreg (h ▸ hpk), hmem⟩
+      · rintro (⟨pk, rfl, hpk, -, hmem⟩ | ⟨-, hmem⟩)
+        · exact ⟨pk, rfl, hpk, hmem⟩
+        · simp at hmem) r ps
+    rw [this]
+    simp only [List.nil_append]
+    constructor
+    · rintro (⟨pk, rfl, hpk, -, hmem⟩ | ⟨rfl, hmem⟩)
+      · exact ⟨pk, rfl, (RegP_add hi pk).mpr (Or.inl hpk), hmem⟩
+      · exact ⟨i.pkg, rfl, (RegP_add hi _).mpr (Or.inr rfl), hmem⟩
+    · rintro ⟨pk, rfl, hpk, hmem⟩
+      rcases (RegP_add hi pk).mp hpk with h | rfl
+      · exact Or.inl ⟨pk, rfl, h, fun h' => hreg (h' ▸ h), hmem⟩
+      · exact Or.inr ⟨rfl, hmem⟩
+  constructor
+  · intro r; simp [regCachesNew, mem_setAdd, hs.schemas r]
+  · exact nodup_setAdd hs.schemas_nodup _
+  · exact upcAdd_index he hi hs.index
+  · intro pk pl
+    simp only [regCachesNew, alGet_alSet, RegP_add hi]
+    by_cases hpk : pk = i.pkg
+    · subst hpk
+      simp only [if_true, Option.some.injEq, or_true, true_and]
+      exact eq_comm
+    · simp only [hpk, if_false, or_false]; exact hs.pkginfos pk pl
+  · exact hprov
+  · intro pk
+    simp only [regCachesNew, alGet_alSet, RegP_add hi]
+    by_cases hpk : pk = i.pkg
+    · subst hpk; simp
+    · simp [hpk, hs.used_dom pk]
+  · intro pk rs hrs
+    simp only [regCachesNew, alGet_alSet] at hrs
+    by_cases hpk : pk = i.pkg
+    · subst hpk
+      simp only [if_true, Option.some.injEq] at hrs
+      subst hrs
+      refine ⟨by simp [setAdd], fun r => ?_⟩
+      simp only [setAdd, List.not_mem_nil, if_false, List.nil_append, List.mem_singleton]
+      constructor
+      · rintro rfl; exact ⟨Or.inr rfl, i, hi, rfl⟩
+      · rintro ⟨hU | rfl, j, hj, hjp⟩
+        · exact absurd ⟨r, j, hU, hj, hjp⟩ hreg
+        · rfl
+    · simp only [hpk, if_false] at hrs
+      obtain ⟨hnd, hmem⟩ := hs.used_val _ _ hrs
+      refine ⟨hnd, fun r => ?_⟩
+      rw [hmem r]
+      constructor
+      · rintro ⟨hU, hex⟩; exact ⟨Or.inl hU, hex⟩
+      · rintro ⟨hU | rfl, j, hj, hjp⟩
+        · exact ⟨hU, j, hj, hjp⟩
+        · rw [hi] at hj; cases hj; exact absurd hjp.symm hpk
+
+/-- what an operation on the TOC part guarantees for the rest of the state -/
+structure TocStep (s s' : St) : Prop where
+  keys : KeysOK s.raw → KeysOK s'.raw
+  pclosed : PClosed s.raw → PClosed s'.raw
+  frame : ∀ q, q.head? ≠ some .toc → get? s'.raw q = get? s.raw q
+  next : s'.next = s.next
+
+theorem TocStep.refl (s : St) : TocStep s s := ⟨id, id, fun _ _ => rfl, rfl⟩
+
+theorem TocStep.trans {s1 s2 s3 : St} (h1 : TocStep s1 s2) (h2 : TocStep s2 s3) : TocStep s1 s3 :=
+  ⟨fun h => h2.keys (h1.keys h), fun h => h2.pclosed (h1.pclosed h),
+   fun q hq => (h2.frame q hq).trans (h1.frame q hq), h2.next.trans h1.next⟩
+
+theorem TocStep.of_create {s : St} {p : Path} {n : Node} {t' : Tree} (h : rawCreate s.raw p n = .ok t')
+    (hp : p.head? = some .toc) (c' : Caches) : TocStep s ⟨t', c', s.next⟩ :=
+  ⟨rawCreate_keys h, rawCreate_pclosed h, fun q hq => rawCreate_frame h q (by rw [hp]; exact hq), rfl⟩
+
+theorem TocStep.of_del {s : St} {p : Path} {t' : Tree} (h : rawDel s.raw p = .ok t')
+    (hp : p.head? = some .toc) (c' : Caches) : TocStep s ⟨t', c', s.next⟩ :=
+  ⟨rawDel_keys h, rawDel_pclosed h, fun q hq => rawDel_frame h q (by rw [hp]; exact hq), rfl⟩
+
+/-- `TOCSchemas._register(ref)` -/
+theorem schemaRegister_spec {e : Env} (he : WFEnv e) {L : Path → SRef → Nat → Prop} {U : SRef → Prop}
+    {s : St} {ref : SRef} {i : SInfo} (hi : e.info ref = some i)
+    (hr : TocRaw e L U s.raw) (hs : SchemaCache e U s.c) :
+    ∃ s', schemaRegister e ref s = (.ok (), s') ∧
+      TocRaw e L (fun r => U r ∨ r = ref) s'.raw ∧ SchemaCache e (fun r => U r ∨ r = ref) s'.c ∧
+      s'.c.tocPath = s.c.tocPath ∧ TocStep s s' := by
+  by_cases hU : U ref
+  · -- already in use: nothing happens
+    have hmem : ref ∈ s.c.schemas := (hs.schemas ref).mpr hU
+    refine ⟨s, by simp [schemaRegister, hmem], hr.congr (fun _ _ _ => Iff.rfl) ?_, hs.congr ?_, rfl, TocStep.refl s⟩
+    · intro r; constructor
+      · rintro (h | rfl); exacts [h, hU]
+      · exact Or.inl
+    · intro r; constructor
+      · rintro (h | rfl); exacts [h, hU]
+      · exact Or.inl
+  · have hnmem : ref ∉ s.c.schemas := fun h => hU ((hs.schemas ref).mp h)
+    -- the two schema datasets
+    have hjson_none : get? s.raw (schemaDir ref ++ [.jsonschema]) = none := (hr.json ref).2 hU
+    obtain ⟨t1, h1⟩ := rawCreate_ok (t := s.raw) (p := schemaDir ref ++ [.jsonschema]) (n := .ds (.jsonschema ref))
+      (by simp [schemaDir]) hjson_none (by
+        intro q v hm
+        simp only [schemaDir, List.cons_append, List.nil_append, isMid, Bool.or_false, Bool.or_eq_true, beq_iff_eq] at hm
+        rcases hm with rfl | rfl | rfl
+        · have := hr.root; simp only [tocP] at this; rw [this]; exact fun h => by cases h
+        · exact hr.schemas.not_ds v
+        · exact (hr.sdir ref).not_ds v)
+    have hcompat_none : get? t1 (schemaDir ref ++ [.compat]) = none := by
+      rw [rawCreate_get? h1 _ (by simp [schemaDir]), (hr.compat ref).2 hU]
+      simp [schemaDir, isMid]
+    obtain ⟨t2, h2⟩ := rawCreate_ok (t := t1) (p := schemaDir ref ++ [.compat]) (n := .ds (.compat i.parents))
+      (by simp [schemaDir]) hcompat_none (by
+        intro q v hm
+        have hq := isMid_ne_nil hm
+        rw [rawCreate_get? h1 q hq]
+        simp only [schemaDir, List.cons_append, List.nil_append, isMid, Bool.or_false, Bool.or_eq_true, beq_iff_eq] at hm ⊢
+        rcases hm with rfl | rfl | rfl
+        · have := hr.root; simp only [tocP] at this; simp [this]
+        · have := hr.schemas.not_ds v
+          simp only [schemasP] at this
+          cases hx : get? s.raw [.toc, .schemas] with
+          | none => simp [isMid]
+          | some x => rw [hx] at this; simpa using this
+        · have := (hr.sdir ref).2 hU
+          simp only [schemaDir] at this
+          simp [this, isMid])
+    have hget2 := tocRaw_addSchema hi hr hU h1 h2
+    have step12 : TocStep s ⟨t2, s.c, s.next⟩ :=
+      (TocStep.of_create h1 (by simp [schemaDir]) s.c).trans
+        (TocStep.of_create (s := ⟨t1, s.c, s.next⟩) h2 (by simp [schemaDir]) s.c)
+    by_cases hreg : RegP e U i.pkg
+    · -- the providing package is registered already
+      have hp : alGet s.c.providers ref = some [i.pkg] :=
+        (hs.providers ref [i.pkg]).mpr ⟨i.pkg, rfl, hreg, he.prov ref i hi⟩
+      obtain ⟨cur, hu⟩ := alGet_some_of_isSome ((hs.used_dom i.pkg).mpr hreg)
+      refine ⟨⟨t2, regCachesOld s.c ref i cur, s.next⟩, schemaRegister_old e ref s i t1 t2 cur hnmem hi h1 h2 hp hu,
+        ?_, schemaCache_regOld he hi hs hreg hu, rfl, ?_⟩
+      · refine tocRaw_register (b := false) hi hr hU (by simp [hreg]) ?_
+        intro q hq
+        rw [hget2 q hq]
+        simp
+      · exact ⟨step12.keys, step12.pclosed, step12.frame, rfl⟩
+    · -- the package record is written as well
+      have hp : alGet s.c.providers ref = none := by
+        cases hg : alGet s.c.providers ref with
+        | none => rfl
+        | some ps =>
+          obtain ⟨pk, -, hpk, hmem⟩ := (hs.providers ref ps).mp hg
+          have := he.disj _ _ _ hmem (he.prov ref i hi)
+          exact absurd (this ▸ hpk) hreg
+      have hpkg_none : get? t2 (pkgPath i.pkg) = none := by
+        rw [hget2 _ (by simp [pkgPath]), (hr.pkg i.pkg).2 hreg]
+        simp [pkgPath, schemaDir, schemasP]
+      obtain ⟨t3, h3⟩ := rawCreate_ok (t := t2) (p := pkgPath i.pkg)
+        (n := .ds (.pkginfo i.pkg (e.pkgPlugins i.pkg))) (by simp [pkgPath]) hpkg_none (by
+          intro q v hm
+          have hq := isMid_ne_nil hm
+          rw [hget2 q hq]
+          simp only [pkgPath, isMid, List.nil_append, Bool.or_false, Bool.or_eq_true, beq_iff_eq] at hm
+          rcases hm with rfl | rfl
+          · have := hr.root; simp only [tocP] at this; simp [this, schemaDir]
+          · have := hr.packages.not_ds v
+            simp only [packagesP] at this
+            intro hcontra
+            cases hx : get? s.raw [.toc, .packages] with
+            | none =>
+              simp only [List.cons_append, List.nil_append] at hcontra
+              rw [hx] at hcontra; simp [schemaDir, schemasP] at hcontra
+            | some x =>
+              simp only [List.cons_append, List.nil_append] at hcontra
+              rw [hx] at hcontra this; simp [schemaDir] at hcontra; exact this (by rw [hcontra]))
+      have hcache := schemaCache_regNew he hi hs hreg
+      have hp' : alGet (addProviders s.c.providers i.pkg (e.pkgPlugins i.pkg)) ref = some [i.pkg] :=
+        (hcache.providers ref [i.pkg]).mpr ⟨i.pkg, rfl, (RegP_add hi _).mpr (Or.inr rfl), he.prov ref i hi⟩
+      refine ⟨⟨t3, regCachesNew e s.c ref i, s.next⟩, schemaRegister_new e ref s i t1 t2 t3 hnmem hi h1 h2 hp h3 hp',
+        ?_, hcache, rfl, ?_⟩
+      · refine tocRaw_register (b := true) hi hr hU (by simp [hreg]) ?_
+        intro q hq
+        rw [rawCreate_get? h3 q hq, hget2 q hq]
+        by_cases hq1 : q = pkgPath i.pkg
+        · simp [hq1]
+        · simp only [hq1, if_false, and_false, true_and]
+          by_cases hq2 : q = schemaDir ref ++ [.compat]
+          · simp [hq2]
+          · by_cases hq3 : q = schemaDir ref ++ [.jsonschema]
+            · simp [hq2, hq3]
+            · simp only [hq2, hq3, if_false]
+              cases hx : get? s.raw q with
+              | some x => rfl
+              | none =>
+                simp only [pkgPath, isMid, List.nil_append, Bool.or_false, Bool.or_eq_true, beq_iff_eq, packagesP]
+                have hroot := hr.root
+                have hq0 : q ≠ [.toc] := by rintro rfl; simp only [tocP] at hroot; rw [hroot] at hx; cases hx
+                by_cases ha : q = schemasP ∨ q = schemaDir ref
+                · rcases ha with ha | ha <;> simp [ha]
+                · have ha' := not_or.mp ha
+                  simp only [ha, if_false, false_or, hq0]
+                  by_cases hb : q = [.toc, .packages]
+                  · simp [hb]
+                  · simp [hb, ha'.1, ha'.2]
+      · have step3 := step12.trans (TocStep.of_create (s := ⟨t2, s.c, s.next⟩) h3 (by simp [pkgPath]) (regCachesNew e s.c ref i))
+        exact ⟨step3.keys, step3.pclosed, step3.frame, rfl⟩
+
 end MetadorModel.Container
